@@ -293,9 +293,9 @@ CHECK = {
                 "(step sign agrees with index order, non-negative increments) proved for the state setEndPoint builds; start/end cells "
                 "contain their points (C13); casts that specify their end point do not read state left by earlier casts; the abstract "
                 "merge lemma explains why the budget rule is neutral in exact arithmetic; every visited cell is met by the segment "
-                "(ghost-parameter invariant: the ray point at the entry parameter lies in the closed current cell). Remaining gap: the "
-                "list-level assembly of the per-axis premises for the state set_end builds (per-axis lemmas are proved; the oracle "
-                "checks the conclusion on every run). Model tied to RayCasting<float|double,2|3> by "
+                "(ghost-parameter invariant: the ray point at the entry parameter lies in the closed current cell); assembled end to "
+                "end for the state cast(origin, end) builds on a 2D and a 3D grid, for every origin != end inside the extent, under "
+                "the single hypothesis that the crossing parameters do not overflow. Model tied to RayCasting<float|double,2|3> by "
                 "executing the extracted model on the same rays (exact path equality outside near-ties).",
         "note": "Trusted: Coq kernel, stdlib real axioms; hand model tied by differential run; extraction; float dictionaries; harness; oracle.",
         "technique": "Coq proof (merge of per-axis crossing sequences; invariants over cast sequences) + extracted-model correspondence",
